@@ -135,19 +135,21 @@ static json memstream_case(json const &cmd)
   }
   cvm::memory_stream is(buf.size(), buf.data());
   json rl = json::array();
+  // prefill: the destinations already hold other data (a read must REPLACE the destination, whatever it held)
+  bool const pf = cmd.value("prefill", false);
   for (auto const &it : items) {
     std::string t = it.at("t");
     json o;
-    if (t == "u8") { unsigned char v = 0; is >> v; o["v"] = int(v); }
-    else if (t == "i32") { int v = 0; is >> v; o["v"] = v; }
-    else if (t == "i64") { long long v = 0; is >> v; o["v"] = v; }
-    else if (t == "f64") { double v = 0; is >> v; o["v"] = v; }
-    else if (t == "str") { std::string v; is >> v; o["v"] = v; }
-    else if (t == "vu8") { std::vector<unsigned char> v; is >> v; json a = json::array(); for (auto x : v) a.push_back(int(x)); o["v"] = a; }
-    else if (t == "vi32") { std::vector<int> v; is >> v; o["v"] = v; }
-    else if (t == "vi64") { std::vector<long long> v; is >> v; o["v"] = v; }
-    else if (t == "vf64") { std::vector<double> v; is >> v; o["v"] = v; }
-    else if (t == "v1d") { cvm::vector1d<cvm::real> a; is >> a; json l = json::array(); for (size_t i = 0; i < a.size(); i++) l.push_back(a[i]); o["v"] = l; }
+    if (t == "u8") { unsigned char v = pf ? 0xa5 : 0; is >> v; o["v"] = int(v); }
+    else if (t == "i32") { int v = pf ? -77 : 0; is >> v; o["v"] = v; }
+    else if (t == "i64") { long long v = pf ? -77 : 0; is >> v; o["v"] = v; }
+    else if (t == "f64") { double v = pf ? -7.5 : 0; is >> v; o["v"] = v; }
+    else if (t == "str") { std::string v; if (pf) v = "previous contents"; is >> v; o["v"] = v; }
+    else if (t == "vu8") { std::vector<unsigned char> v; if (pf) v.assign(5, 0xa5); is >> v; json a = json::array(); for (auto x : v) a.push_back(int(x)); o["v"] = a; }
+    else if (t == "vi32") { std::vector<int> v; if (pf) v.assign(5, -77); is >> v; o["v"] = v; }
+    else if (t == "vi64") { std::vector<long long> v; if (pf) v.assign(5, -77); is >> v; o["v"] = v; }
+    else if (t == "vf64") { std::vector<double> v; if (pf) v.assign(5, -7.5); is >> v; o["v"] = v; }
+    else if (t == "v1d") { cvm::vector1d<cvm::real> a; if (pf) { a.resize(5); for (size_t i = 0; i < 5; i++) a[i] = -7.5; } is >> a; json l = json::array(); for (size_t i = 0; i < a.size(); i++) l.push_back(a[i]); o["v"] = l; }
     o["ok"] = bool(is);
     o["pos"] = is.tellg();
     rl.push_back(o);
